@@ -288,6 +288,37 @@ def conditions(tier):
     return out
 
 
+def extra_checks():
+    """Number syntax over ALL strings (not the pool): the validator's language,
+    read from the AST of checks.number, is inside the INDI number grammar --
+    regex inclusion decided by z3 (SMT engine, shared with C10's Q5)."""
+    import os
+    from smt import numfmt as N
+    from props import c10
+    src_root = os.environ.get("INDIPY_SRC", "/repo")
+    run = c10.Run(src_root, "quick")
+    try:
+        src = N.load(src_root)
+        pats, validator = c10.validator_language(src["number"])
+        st, wit = run.lang_included(validator, c10.indi_grammar(), "validator inside grammar")
+    except N.Unsupported as e:
+        return [dict(name="number-syntax/inclusion", status="inconclusive", detail="translator: " + str(e), queries=run.queries, solver_s=run.solver_s)]
+    if st == "holds":
+        return [dict(name="number-syntax/inclusion", status="holds", detail=f"L({len(pats)} validator regexes) inside L(INDI number grammar): unsat",
+                     queries=run.queries, solver_s=run.solver_s)]
+    if st == "witness":
+        values, checks = c10.real_funcs(src_root)
+        try:
+            checks.number(wit)
+        except ValueError:
+            return [dict(name="number-syntax/inclusion", status="inconclusive", detail=f"witness {wit!r} does not reproduce",
+                         queries=run.queries, solver_s=run.solver_s)]
+        return [dict(name="number-syntax/inclusion", status="violated", signature="C13:number-syntax:validator-accepts-non-number",
+                     detail=f"checks.number accepts {wit!r}, which is not an INDI number", record=dict(text=wit),
+                     queries=run.queries, solver_s=run.solver_s)]
+    return [dict(name="number-syntax/inclusion", status="inconclusive", detail="solver unknown", queries=run.queries, solver_s=run.solver_s)]
+
+
 def preflight():
     names = {c.__name__ for c in library_message_classes()}
     missing = names - set(MSG_SPECS)
